@@ -21,3 +21,4 @@ CFG = {'level': 'exploration',
                     ('codec:record-text-refused', 1),
                     ('codec:mutated-tree-rejected', 1)]},
  'assumptions': ['SHA-256 collisions do not occur']}
+CFG['level_text'] += ' Mutated JSON texts of hashes and tree heads whose first line merely starts with the prescribed one must be rejected or mean exactly what they say; appends through stores that reply with the wrong number of hashes must fail or still give the true hashes.'
